@@ -408,12 +408,14 @@ func intcomAll(r *runner, c counts) {
 		if i%2 == 0 {
 			intcomCase(r, c, big, i)
 		}
+		r.maybeFlush()
 	}
 	for i := 0; i < c.equiv/2; i++ {
 		intcomEquivocate(r, small, i)
 		if i%2 == 0 {
 			intcomEquivocate(r, big, i)
 		}
+		r.maybeFlush()
 	}
 }
 
